@@ -53,6 +53,80 @@ pub fn schedule_json(choices: &[u8]) -> String { format!("[{}]", choices.iter().
 /// Explores one harness body for every worker count and deviation bound up to `kmax`; every outcome that
 /// differs from `expected` (or a panic / deadlock / livelock) is a violation carrying its schedule.
 pub fn explore_harness(rep: &mut Report, prop: &str, name: &str, workers: &[usize], kmax: u32, max_exec: u64, body: &(dyn Fn() -> String + Sync), expected: &str) {
+    explore_harness_opt(rep, prop, name, workers, kmax, max_exec, body, expected, false)
+}
+
+fn esc(s: &str) -> String { s.replace('\\', "\\\\").replace('\n', "\\n").replace('\t', "\\t") }
+fn unesc(s: &str) -> String {
+    let mut out = String::new();
+    let mut it = s.chars();
+    while let Some(c) = it.next() {
+        if c == '\\' { match it.next() { Some('n') => out.push('\n'), Some('t') => out.push('\t'), Some(x) => out.push(x), None => {} } } else { out.push(c); }
+    }
+    out
+}
+fn intern(s: &str) -> &'static str {
+    static TABLE: std::sync::Mutex<Vec<&'static str>> = std::sync::Mutex::new(Vec::new());
+    let mut t = TABLE.lock().unwrap();
+    if let Some(x) = t.iter().find(|x| **x == s) { return x; }
+    let l: &'static str = Box::leak(s.to_string().into_boxed_str());
+    t.push(l);
+    l
+}
+/// child side of the fresh-process mode: one schedule prefix is executed and its result printed
+fn child_run(n: usize, prefix: &[u8], body: &(dyn Fn() -> String + Sync)) -> ! {
+    let cfg = vsched::Config { workers: n, ..Default::default() };
+    let ex = vsched::run_one(&cfg, prefix, body);
+    let mut out = String::new();
+    match &ex.result {
+        Ok(o) => out.push_str(&format!("R\tok\t{}\n", esc(o))),
+        Err(vsched::Failure::Panic(p)) => out.push_str(&format!("R\tpanic\t{}\n", esc(p))),
+        Err(vsched::Failure::Deadlock(d)) => out.push_str(&format!("R\tdeadlock\t{}\n", esc(d))),
+        Err(vsched::Failure::StepLimit) => out.push_str("R\tsteplimit\t\n"),
+        Err(vsched::Failure::ReplayDivergence(m)) => out.push_str(&format!("R\tdivergence\t{}\n", esc(m))),
+    }
+    for c in &ex.trace { out.push_str(&format!("T\t{}\t{}\t{}\t{}\n", c.options, c.chosen, esc(c.kind), c.costs.iter().map(|x| x.to_string()).collect::<Vec<_>>().join(","))); }
+    for l in &ex.log { out.push_str(&format!("L\t{}\n", esc(l))); }
+    out.push_str("E\n");
+    use std::io::Write;
+    let _ = std::io::stdout().write_all(out.as_bytes());
+    let _ = std::io::stdout().flush();
+    std::process::exit(0)
+}
+/// parent side: runs one schedule prefix in a fresh process of this binary
+fn spawn_run(n: usize, prefix: &[u8]) -> vsched::Execution<String> {
+    let exe = std::env::current_exe().expect("current_exe");
+    let out = std::process::Command::new(exe)
+        .env("VSCHED_CHILD_WORKERS", n.to_string())
+        .env("VSCHED_CHILD_PREFIX", prefix.iter().map(|c| c.to_string()).collect::<Vec<_>>().join(","))
+        .env_remove("VERIF_OUT")
+        .output();
+    let fail = |m: String| vsched::Execution { result: Err(vsched::Failure::ReplayDivergence(m)), trace: vec![], log: vec![] };
+    let out = match out { Ok(o) => o, Err(e) => return fail(format!("cannot spawn the child process: {}", e)) };
+    let txt = String::from_utf8_lossy(&out.stdout).to_string();
+    if !txt.ends_with("E\n") { return fail(format!("child process ended without a result (status {:?}): {}", out.status, String::from_utf8_lossy(&out.stderr).chars().take(300).collect::<String>())); }
+    let mut result = None;
+    let mut trace = vec![];
+    let mut log = vec![];
+    for line in txt.lines() {
+        let f: Vec<&str> = line.split('\t').collect();
+        match f[0] {
+            "R" => { let v = unesc(f.get(2).unwrap_or(&"")); result = Some(match f[1] { "ok" => Ok(v), "panic" => Err(vsched::Failure::Panic(v)), "deadlock" => Err(vsched::Failure::Deadlock(v)), "steplimit" => Err(vsched::Failure::StepLimit), _ => Err(vsched::Failure::ReplayDivergence(v)) }); }
+            "T" => trace.push(vsched::Choice { options: f[1].parse().unwrap(), chosen: f[2].parse().unwrap(), kind: intern(&unesc(f[3])), costs: f[4].split(',').filter_map(|x| x.parse().ok()).collect() }),
+            "L" => log.push(unesc(f.get(1).unwrap_or(&""))),
+            _ => {}
+        }
+    }
+    match result { Some(r) => vsched::Execution { result: r, trace, log }, None => fail("child process printed no result".into()) }
+}
+
+/// `fresh_process`: every execution runs in a new process of this binary (process-wide state such as caches
+/// filled at first use cannot leak from one explored execution into the next)
+pub fn explore_harness_opt(rep: &mut Report, prop: &str, name: &str, workers: &[usize], kmax: u32, max_exec: u64, body: &(dyn Fn() -> String + Sync), expected: &str, fresh_process: bool) {
+    if let (Ok(w), Ok(p)) = (std::env::var("VSCHED_CHILD_WORKERS"), std::env::var("VSCHED_CHILD_PREFIX")) {
+        let prefix: Vec<u8> = p.split(',').filter_map(|x| x.parse().ok()).collect();
+        child_run(w.parse().unwrap(), &prefix, body);
+    }
     let shard = std::env::var("VSCHED_SHARD").ok().and_then(|s| { let mut it = s.split('/'); Some((it.next()?.parse().ok()?, it.next()?.parse().ok()?)) }).unwrap_or((0usize, 1usize));
     // replay mode: exactly one recorded schedule
     if let (Ok(w), Ok(sc)) = (std::env::var("VSCHED_REPLAY_WORKERS"), std::env::var("VSCHED_REPLAY_SCHEDULE")) {
@@ -75,7 +149,11 @@ pub fn explore_harness(rep: &mut Report, prop: &str, name: &str, workers: &[usiz
         let cfg = vsched::Config { workers: n, max_deviations: kmax, max_executions: max_exec, shard, ..Default::default() };
         let t0 = std::time::Instant::now();
         let mut collided = 0u64;
-        let res = vsched::explore(&cfg, body, &mut |choices, ex| {
+        let mut runner_local = |prefix: &[u8]| vsched::run_one(&cfg, prefix, body);
+        let mut runner_fresh = |prefix: &[u8]| spawn_run(n, prefix);
+        let runner: &mut dyn FnMut(&[u8]) -> vsched::Execution<String> = if fresh_process { &mut runner_fresh } else { &mut runner_local };
+        if fresh_process { rep.extra(&format!("{}.N{}.fresh_process_per_execution", name, n), true); }
+        let res = vsched::explore_with(&cfg, runner, &mut |choices, ex| {
             let (kind, detail) = match &ex.result {
                 Ok(o) => { *outcomes.entry(o.clone()).or_insert(0) += 1; if o == expected { (None, String::new()) } else { (Some("outcome-differs-from-serial"), format!("got {} expected {}", o, expected)) } }
                 Err(vsched::Failure::Panic(p)) => (Some("panic"), p.clone()),
